@@ -227,9 +227,18 @@ fn get_dir_name() -> String {
     return String::from(unique_db_test_db_name);
 }
 
+#[cfg(not(nundb_verif))]
 #[cfg(not(test))]
 fn get_dir_name() -> String {
     NUN_DBS_DIR.to_string()
+}
+
+#[cfg(all(nundb_verif, not(test)))]
+fn get_dir_name() -> String {
+    match crate::verif_hooks::data_dir() {
+        Some(dir) => dir,
+        None => NUN_DBS_DIR.to_string(),
+    }
 }
 
 fn get_op_log_dir_name() -> String {
@@ -324,6 +333,11 @@ pub fn declutter_scheduler(timer: timer::Timer, dbs: Arc<Databases>) {
 fn declutter(dbs: &Arc<Databases>) {
     snapshot_all_pendding_dbs(&dbs);
     remove_old_db_files();
+}
+
+#[cfg(nundb_verif)]
+pub fn verif_declutter(dbs: &Arc<Databases>) {
+    declutter(dbs)
 }
 
 pub fn snapshot_all_pendding_dbs(dbs: &Arc<Databases>) {
